@@ -77,6 +77,16 @@ func (am *Machine) handleStateDkgCommitsAwaitConfirmations(o *client.Operation) 
 		return fmt.Errorf("failed to unmarshal payload: %w", err)
 	}
 
+	// (the payload comes from a file: an empty list or a null entry must be an error, not a crash)
+	if len(payload) == 0 {
+		return fmt.Errorf("the list of participants is empty")
+	}
+	for _, r := range payload {
+		if r == nil {
+			return fmt.Errorf("the list of participants has an empty entry")
+		}
+	}
+
 	pid := -1
 	for _, r := range payload {
 		pubkey := am.baseSuite.Point()
@@ -168,6 +178,9 @@ func (am *Machine) handleStateDkgDealsAwaitConfirmations(o *client.Operation) er
 	}
 
 	for _, entry := range payload {
+		if entry == nil {
+			return fmt.Errorf("the operation payload has an empty entry")
+		}
 		var commitsBz [][]byte
 		if err = json.Unmarshal(entry.DkgCommit, &commitsBz); err != nil {
 			return fmt.Errorf("failed to unmarshal commits: %w", err)
@@ -250,6 +263,9 @@ func (am *Machine) handleStateDkgResponsesAwaitConfirmations(o *client.Operation
 	}
 
 	for _, entry := range payload {
+		if entry == nil {
+			return fmt.Errorf("the operation payload has an empty entry")
+		}
 		//do not store deals from ourselves because of the hack above
 		if entry.ParticipantId == dkgInstance.ParticipantID {
 			continue
@@ -318,6 +334,9 @@ func (am *Machine) handleStateDkgMasterKeyAwaitConfirmations(o *client.Operation
 	}
 
 	for _, entry := range payload {
+		if entry == nil {
+			return fmt.Errorf("the operation payload has an empty entry")
+		}
 		var entryResponses []*dkgPedersen.Response
 		if err = json.Unmarshal(entry.DkgResponse, &entryResponses); err != nil {
 			return fmt.Errorf("failed to unmarshal responses: %w", err)
